@@ -29,6 +29,9 @@ type C15RacePlan struct {
 	Churn        bool   `json:"churn"`        // nodes drop connections during the sync
 	Events       int    `json:"events"`       // announcements after the sync
 	KnownPass    bool   `json:"knownPass"`    // finding pass: races matching an open finding are reported as KNOWN-FINDING
+	// Malformed: the last node sends one well-framed but truncated ping on its first connection (a decode error on one
+	// peer's reader must not disturb the codec state other goroutines share)
+	Malformed bool `json:"malformed,omitempty"`
 }
 
 func raceLogs() []string {
@@ -74,6 +77,9 @@ func runC15Race(p *C15RacePlan) (*stats.Case, error) {
 		if p.Churn && i > 0 {
 			nd.Spec.CloseAt = 2 + i
 			nd.Spec.CloseAfter = i%2 == 0
+		}
+		if p.Malformed && i == n-1 && n > 1 {
+			nd.Spec.TruncatedPing = true
 		}
 		plan.Nodes = append(plan.Nodes, nd)
 	}
@@ -283,7 +289,7 @@ var propC15Race = Prop[*C15RacePlan]{
 	Gen: func(t *rapid.T) *C15RacePlan {
 		return &C15RacePlan{Engine: "legacy", HonestLen: rapid.IntRange(20, 150).Draw(t, "len"),
 			Nodes: rapid.IntRange(2, 4).Draw(t, "nodes"), Cap: rapid.SampledFrom([]int{3, 10, 50, 2000}).Draw(t, "cap"), Readers: rapid.IntRange(1, 4).Draw(t, "readers"),
-			Churn: rapid.Bool().Draw(t, "churn"), Events: rapid.IntRange(0, 3).Draw(t, "events")}
+			Churn: rapid.Bool().Draw(t, "churn"), Events: rapid.IntRange(0, 3).Draw(t, "events"), Malformed: rapid.Bool().Draw(t, "malformed")}
 	},
 	Run: runC15Race,
 }
